@@ -198,15 +198,18 @@ func fixedGraphs() []*ggraph {
 		}
 		out = append(out, finish(&ggraph{mods: mods, shape: fmt.Sprintf("fixed-starchain-%d", levels), rootType: "module", subType: "module"}))
 	}
+	// 18. repaired finding C02-A (fix a7bd0a8), must pass: one binding exported under two names and
+	// re-exported to the same name along two export-star paths is not ambiguous
+	out = append(out, aliasTwoNamesGraph())
 	return out
 }
 
 func v2(n string) localExport { return localExport{n, "var"} }
 
-// the known finding: one binding exported under two names, re-exported to the
+// (repaired, now a must-pass graph) one binding exported under two names, re-exported to the
 // same name along two export-star paths (ECMA-262: same module and binding
 // name, so not ambiguous; the linker compares name locations and rejects it)
-func knownAliasGraph() *ggraph {
+func aliasTwoNamesGraph() *ggraph {
 	e, m, a1, a2, b := esm(0, "e.mjs"), esm(1, "m.mjs"), esm(2, "a1.mjs"), esm(3, "a2.mjs"), esm(4, "b.mjs")
 	b.locals = []localExport{{"v", "var"}}
 	b.aliasTwo = true
@@ -214,7 +217,7 @@ func knownAliasGraph() *ggraph {
 	a2.reexps = []greexp{{4, "q2", "x"}}
 	m.stars = []int{2, 3}
 	e.imports = []gimport{{1, "named", "x", "ex"}}
-	g := finish(&ggraph{mods: []*gmod{e, m, a1, a2, b}, shape: "known", rootType: "module", subType: "module"})
+	g := finish(&ggraph{mods: []*gmod{e, m, a1, a2, b}, shape: "fixed-alias-two-names", rootType: "module", subType: "module"})
 	return g
 }
 
@@ -285,7 +288,7 @@ func knownFindings(st *Stats) {
 		g        *ggraph
 		scenario string
 		cfg      buildCfg
-	}{{knownAliasGraph(), "known-alias-two-names-star-ambiguity", plain}, {knownStarCycleGraph(), "known-star-reexport-cycle-ambiguity", plain},
+	}{{knownStarCycleGraph(), "known-star-reexport-cycle-ambiguity", plain},
 		{knownExportlessGraph(), "known-import-from-exportless-module-accepted", plain},
 		{knownUnusedMissingGraph(), "known-minify-drops-unused-missing-import", buildCfg{"esm", "node", true}},
 		{knownStaleReexportGraph(), "known-star-cycle-commonjs-reexport-copied-too-early", plain},
